@@ -81,6 +81,19 @@ class SProto(SVal):
         return NotImplemented
 
 
+class STypingForm(SProto):
+    """typing.Optional / Dict / ... : only ever subscripted to build annotations or Generic parameters"""
+
+    def pytype(self):
+        return "typing"
+
+    def py_getitem(self, I, k):
+        return self
+
+
+TYPING_FORM = STypingForm()
+
+
 class Frame:
     __slots__ = ("vars", "module", "outer", "fi", "locals_set", "globals_decl", "cls")
 
@@ -810,6 +823,8 @@ class Interp:
                 if short in self.ext:
                     e = self.ext[short]
                     return e if isinstance(e, SVal) else SBuiltin(short, e)
+                if r[1] == "typing":
+                    return TYPING_FORM
                 raise OutOfSubset("external name %s" % key)
         raise OutOfSubset("resolve %r" % (r,))
 
